@@ -22,6 +22,7 @@ from glom import (T, Spec, Val, Coalesce, Call, Invoke, Ref, Pipe, SKIP, STOP, G
 
 from .. import fuzzrun
 from ..runner import Sub, Mismatch
+from .. import runner as runner_mod
 from .. import targets as tg
 
 PROPERTY = 'C03'
@@ -585,7 +586,7 @@ def gen(draw):
     trec = gen_target(draw)
     value = tg.build(trec).obj
     g = Gen(draw)
-    return {'target': trec, 'spec': g.spec(value, draw(st.sampled_from([2, 2, 3, 3, 4])))}
+    return {'target': trec, 'spec': g.spec(value, draw(st.sampled_from([2, 3, 3, 4, 5] if runner_mod.thorough() else [2, 2, 3, 3, 4])))}
 
 
 # ---------------------------------------------------------------------------
